@@ -533,6 +533,24 @@ def gen_multi(rng, ncalls):
             'family': 'multi-zero-latency'}
 
 
+def gen_multi_large(rng):
+    """3-8 streams on one limiter moving pieces of up to a quarter second's worth (the property's d <= L/4, not only the
+    commands' small chunk), zero latency, greedy: several seconds' worth of payload, so that whoever queues behind another
+    stream's sleep does so many times - the bound is L*T + L*PAUSE_LIMIT + (n+1)*d_max"""
+    L = 2 ** rng.randint(8, 16)
+    n = rng.randint(3, 8)
+    dmax = L // rng.choice([4, 4, 5, 8, 8, 16])
+    seconds = rng.choice([6, 8, 10])
+    per_thread = max(4, seconds * L // (n * dmax))
+    calls = [[] for _ in range(n)]
+    for t in range(n):
+        for _ in range(per_thread):
+            d = dmax if rng.random() < 0.8 else rng.randint(dmax // 2, dmax)
+            calls[t].append(['0', str(d), '0', '0'])
+    return {'threads': n, 'L': L, 'dmax': dmax, 'dir': rng.choice('rw'), 'calls': calls, 'stack': False,
+            'family': 'multi-zero-latency-large-pieces'}
+
+
 def slow_io_probe(rng, randomised):
     """row 14 of DESIGN section 5: n streams whose underlying I/O is as slow as the limit and overlaps"""
     if not randomised:
@@ -816,57 +834,104 @@ def site_probe(rep, rng):
                 'signature': {'kind': 'site_chunk_size', 'command': sc['site'][0]}, 'replay': {k: v for k, v in sc.items() if not k.startswith('_')}})
 
 
-def real_threads_probe(rep):
-    """Four REAL threads read through one limiter for about 1.5 s of wall time; the bytes that reach the underlying
-    streams in any window must respect the limit (a loaded machine can only make this slower, never faster)."""
+REAL_THREAD_CONFIGS = [   # (readers, writers, piece = L // k): at least 4 streams per direction, pieces of L/5 .. L/8
+    (8, 0, 8), (6, 0, 5), (0, 6, 5), (4, 4, 8), (5, 0, 6), (0, 8, 8), (6, 6, 6), (7, 0, 7)]
+
+
+def real_threads_run(L, readers, writers, d, seconds):
+    """REAL threads through one limiter, real clock: every thread moves its share of [seconds] seconds' worth of payload (per
+    direction) in pieces of d bytes as fast as the limiter lets it; the underlying streams note (perf_counter, bytes)."""
     import threading, time as _time
     from replicat import utils as U
-    L = 200_000
-    n = 4
-    d = max(L // (n * 16), 1)
-    per = 75_000
-    events, elock = [], threading.Lock()
+    ev = {'r': [], 'w': []}
+    elock = threading.Lock()
 
     class Tap(io.BytesIO):
         def read(self, size=-1):
             data = super().read(size)
+            now = _time.perf_counter()
             with elock:
-                events.append((_time.perf_counter(), len(data)))
+                ev['r'].append((now, len(data)))
             return data
 
-    lim = U.RateLimitedIO(L)
+        def write(self, data):
+            k = super().write(data)
+            now = _time.perf_counter()
+            with elock:
+                ev['w'].append((now, k))
+            return k
 
-    def work():
+    lim = U.RateLimitedIO(L)
+    start = threading.Barrier(readers + writers)
+
+    def reader(per):
         w = lim.wrap(Tap(b'z' * per))
+        start.wait()
         while w.read(d):
             pass
 
-    ths = [threading.Thread(target=work) for _ in range(n)]
-    t0 = _time.perf_counter()
+    def writer(per):
+        w = lim.wrap(Tap())
+        start.wait()
+        left = per
+        while left > 0:
+            left -= w.write(bytes(min(d, left)))
+
+    ths = [threading.Thread(target=reader, args=(int(L * seconds) // readers,)) for _ in range(readers)]
+    ths += [threading.Thread(target=writer, args=(int(L * seconds) // writers,)) for _ in range(writers)]
     for t in ths:
         t.start()
     for t in ths:
-        t.join(30)
-    total = _time.perf_counter() - t0
-    rep.case(('real-threads', n, L), nontrivial=True)
-    rep.count('real_threads_probe_seconds_x100', int(total * 100))
-    ev = sorted(events)
-    burst = L * 0.5 + (n + 1) * d
-    worst = None
-    for i in range(len(ev)):
-        by = 0
-        for j in range(i, len(ev)):
-            by += ev[j][1]
-            T = ev[j][0] - ev[i][0]
-            ex = by - L * T - burst
-            if worst is None or ex > worst[0]:
-                worst = (ex, T, by)
-    # 10 % tolerance for timer granularity; the seeded lock-scope change overshoots by ~150 %
-    if worst and worst[0] > 0.10 * (L * worst[1] + burst):
-        rep.violations.append({'what': (f'{n} real threads on one limiter (limit {L} B/s, pieces of {d} bytes): {worst[2]} bytes reached the underlying '
-                                        f'streams within {worst[1]:.3f} s, allowed {L * worst[1] + burst:.0f}'),
-                               'signature': {'kind': 'real_threads_window', 'dir': 'r'}, 'replay': {'probe': 'real_threads', 'L': L, 'n': n, 'd': d}})
+        t.join(120)
+    return ev
 
+
+def real_threads_check(rep, L, readers, writers, d, seconds):
+    """Judged generously so that a loaded machine can never make the unchanged tree fail (load only delays transfers; a late
+    timestamp can shift at most one piece per thread): windows of at least 0.5 s, 10 % on the rate, allowance
+    L*PAUSE_LIMIT + (2n+1)*d.  A limiter that credits streams for time it did not make them wait shows a SUSTAINED excess
+    (50-100 % over L), far beyond this."""
+    from replicat import utils as U
+    ev = real_threads_run(L, readers, writers, d, seconds)
+    rep.case(('real-threads', L, readers, writers, d, seconds), nontrivial=True)
+    rep.count(f'real threads: {readers} readers + {writers} writers, pieces L/{L // d}')
+    found = False
+    for direction, n in (('r', readers), ('w', writers)):
+        e = sorted(x for x in ev[direction] if x[1])
+        if not n or not e:
+            continue
+        burst = L * float(U.RateLimitedIO.PAUSE_LIMIT) + (2 * n + 1) * d
+        worst = None
+        for i in range(len(e)):
+            by = 0
+            for j in range(i, len(e)):
+                by += e[j][1]
+                T = e[j][0] - e[i][0]
+                if T < 0.5:
+                    continue
+                ex = by - 1.10 * L * T - burst
+                if worst is None or ex > worst[0]:
+                    worst = (ex, T, by)
+        if worst and worst[0] > 0:
+            found = True
+            rep.violations.append({
+                'what': (f'{n} real threads {"reading" if direction == "r" else "writing"} through one limiter (limit {L} B/s, pieces of {d} bytes, '
+                         f'{seconds} s worth of payload): {worst[2]} bytes reached the underlying streams within {worst[1]:.3f} s = '
+                         f'{worst[2] / worst[1] / L:.2f} x the limit sustained; allowed 1.1*L*T + L*PAUSE_LIMIT + (2n+1)*d = {1.10 * L * worst[1] + burst:.0f}'),
+                'signature': {'kind': 'real_threads_window', 'dir': direction},
+                'replay': {'probe': 'real_threads', 'L': L, 'readers': readers, 'writers': writers, 'd': d, 'seconds': seconds}})
+    return found
+
+
+def real_threads_probe(rep, rng=None, rounds=1):
+    """the commands' situation (4 streams, small pieces, 1.5 s) and [rounds] configurations with 3..8 streams per direction
+    moving pieces of L/5 .. L/8 for about 10 s"""
+    L = 200_000
+    real_threads_check(rep, L, 4, 0, max(L // (4 * 16), 1), 1.5)
+    import random as _random
+    rng = rng or _random.Random(0)
+    for readers, writers, k in rng.sample(REAL_THREAD_CONFIGS, min(rounds, len(REAL_THREAD_CONFIGS))):
+        real_threads_check(rep, L, readers, writers, L // k, 10)
 
 
 # --------------------------------------------------------------------------- command-level probe
@@ -1140,11 +1205,13 @@ def run(ctx) -> Report:
         scs.append(gen_multi(rng, rng.choice([6, 20, 40, ctx.scale(60, 150)])))
     for _ in range(ctx.scale(40, 400)):
         scs.append(gen_positioned(rng))
+    for _ in range(ctx.scale(30, 300)):
+        scs.append(gen_multi_large(rng))
     scs.append(slow_io_probe(rng, False))
     scs.append(slow_io_probe(rng, True))
     exercise(scs, rep, rng)
     site_probe(rep, rng)
-    real_threads_probe(rep)
+    real_threads_probe(rep, rng, ctx.scale(1, 4))
     command_probe(rep, rng, ctx.scale(1, 8))
     for i in range(ctx.scale(1500, 20000)):
         check_transparency(transparency_case(rng, i), rep)
@@ -1166,9 +1233,11 @@ def search(ctx, broken) -> Report:
         scs.append(gen_multi(rng, rng.choice([40, 120, 300])))
     for _ in range(400):
         scs.append(gen_positioned(rng))
+    for _ in range(300):
+        scs.append(gen_multi_large(rng))
     exercise(scs, rep, rng, with_model=False)
     site_probe(rep, rng)
-    real_threads_probe(rep)
+    real_threads_probe(rep, rng, 3)
     command_probe(rep, rng, 12)
     for i in range(20000):
         if check_transparency(transparency_case(rng, i), rep) and len(rep.violations) > 5:
@@ -1185,6 +1254,8 @@ def replay(ctx, obj):
         exercise([dict(case)], rep, ctx.rng)
     elif case.get('probe') == 'command':
         check_command_case(case, rep)
+    elif case.get('probe') == 'real_threads' and 'readers' in case:
+        real_threads_check(rep, case['L'], case['readers'], case['writers'], case['d'], case['seconds'])
     else:
         print('replay file does not carry a C20 case:', obj.get('kind'))
         return 0
